@@ -3,7 +3,7 @@ import driver, build
 from driver import Run, check
 
 ASSUME_COMMON = [
-    'process environment: the C locale, plus (C01, C02, C09, C14) a second pass under a synthetic single-byte ISO-8859-2 locale built offline with localedef (tools/make_locale.py) in which bytes above 0x7F are letters with case mappings; time zone settings are enumerated in C11',
+    'process environment: the C locale, plus (C01, C02, C05, C07, C09, C14, C17) a second pass under a synthetic single-byte ISO-8859-2 locale built offline with localedef (tools/make_locale.py) in which bytes above 0x7F are letters with case mappings and NEL / the no-break space are white space; time zone settings are enumerated in C11',
     'injected NFC/NFKD is libutf8proc; it truncates to sizeof(polyseed_str)-1 bytes and NUL-terminates',
     'reference model harness/ref.c (written from README.md + polyseed.h) and golden word lists /verif/golden (sha256-pinned, English digest = published BIP-39 digest)',
     'compilers, sanitizers, binutils (ld -r, objcopy section renaming)',
@@ -38,7 +38,7 @@ def c04(tier, seed):
         'key sizes {0,1,31,32,33,64,4000}; the key buffer ends at a page boundary followed by an inaccessible page and the page is made inaccessible when the KDF stub returns'])
 
 def c05(tier, seed):
-    runs = [Run('e2_coin', 'asan' if tier == 'quick' else 'plain', [])]
+    runs = [Run('e2_coin', 'asan' if tier == 'quick' else 'plain', []), Run('e2_coin', 'plain', ['--locale', 'verif_l2', '--tier', 'quick'], label='e2_coin[plain] under a single-byte process locale')]
     if tier == 'thorough':
         runs.append(Run('e2_coin', 'asan', ['--tier', 'quick'], label='e2_coin[asan] quick set'))
     return check('C05', tier, seed, runs, keyfilter=pref('c05:'), assumptions=ASSUME_COMMON)
@@ -48,7 +48,7 @@ def c06(tier, seed):
         '2^256 buffers are explored field-wise around valid images: every byte x 256 values, the two header bytes (65536) with stale and with recomputed check values, footer variants, secret top bits x all check values, all 2-bit (and, thorough, 3-bit) flips'])
 
 def c07(tier, seed):
-    return check('C07', tier, seed, [Run('e2_words', 'asan', [])], keyfilter=pref('c07:'), assumptions=ASSUME_COMMON + [
+    return check('C07', tier, seed, [Run('e2_words', 'asan', []), Run('e2_words', 'plain', ['--locale', 'verif_l2', '--tier', 'quick'], label='e2_words[plain] under a single-byte process locale')], keyfilter=pref('c07:'), assumptions=ASSUME_COMMON + [
         'words are observed through polyseed_encode output; the golden lists were extracted once from the pinned commit'])
 
 def c08(tier, seed):
@@ -65,7 +65,7 @@ def c11(tier, seed):
     return check('C11', tier, seed, runs, keyfilter=pref('c11:'), assumptions=ASSUME_COMMON + ['clock values beyond the documented range (after March 2107) wrap modulo 1024 months; only B <= t is required there'])
 
 def c17(tier, seed):
-    runs = [Run('e2_maxlen', 'asan', [])]
+    runs = [Run('e2_maxlen', 'asan', []), Run('e2_maxlen', 'plain', ['--locale', 'verif_l2', '--tier', 'quick'], label='e2_maxlen[plain] under a single-byte process locale')]
     if tier == 'thorough':
         runs.append(Run('e2_maxlen', 'dbg', []))
     return check('C17', tier, seed, runs, keyfilter=pref('c17:'), assumptions=ASSUME_COMMON + [
@@ -200,12 +200,12 @@ def c16(tier, seed):
     runs.append(Run('e2_long', 'asan', []))              # ... and when hundreds of seeds are alive or tens of thousands of calls have been made
     def cov(results):
         return {'builds': modes, 'cells_reached_per_build': {res['_label']: res.get('cells_reached') for r, res in results if r.prog == 'e4_residue'},
-                'bytes_scanned': sum(res.get('bytes_scanned', 0) for r, res in results), 'cells_expected': 67}
+                'bytes_scanned': sum(res.get('bytes_scanned', 0) for r, res in results), 'cells_expected': 79}
     def post(results):
         out = []
         for r, res in results:
-            if r.prog == 'e4_residue' and res.get('cells_reached') is not None and res.get('cells_reached') != 67:
-                out.append({'key': 'harness:e4-cells:%s' % r.mode, 'replay': '', 'msg': '%s reached %s of 67 (function, exit) cells' % (res['_label'], res.get('cells_reached'))})
+            if r.prog == 'e4_residue' and res.get('cells_reached') is not None and res.get('cells_reached') != 79:
+                out.append({'key': 'harness:e4-cells:%s' % r.mode, 'replay': '', 'msg': '%s reached %s of 79 (function, exit) cells' % (res['_label'], res.get('cells_reached'))})
         return out
     return check('C16', tier, seed, runs, keyfilter=pref('c16:', 'harness:'), extra_cov=cov, post=post, assumptions=ASSUME_COMMON + [
         'what a given compiler leaves behind: the build matrix is the claim (quick: gcc -O2, -O0; thorough: gcc -O0..-Os, clang -O0/-O2/-O3), x86-64',
@@ -291,7 +291,7 @@ META = {
    text='All interleavings of seven (thorough: eight) multi-threaded harnesses (refused-feature inputs next to valid ones; a pool allocator that recycles released blocks across threads; libc allocator; create/encode/decode/free; load/crypt/keygen/encode/decode_explicit/free; 3 threads with colliding language and coin; Chinese auto-detection + non-ASCII crypt against Korean create/encode/decode; thorough: 3 threads x full create/encode/decode/free cycles, 114 305 states) at the granularity of single accesses to the library writable static data are executed on the real library (2 555 + 4 164 + 30 688 + 3 114 states on the unchanged tree, each complete without a preemption bound). Every execution is checked for a write/any-access pair by different threads on a shared byte, for accesses to another thread seed memory, and for per-thread transcripts equal to a serial run. A free-running pass of the same bodies under real ThreadSanitizer keeps uninstrumented libc helpers visible.',
    note='Trusted: ' + TB + ', gcc -fsanitize=thread instrumentation, pthreads/semaphores. Sequential consistency; 2-3 threads; a state cap switches to iterative preemption bounding and is reported.'),
  'C16': dict(engine='E4', design_ref='DESIGN.md section 5 C16', technique='enumeration of every API function x exit path x compiler build on a painted stack with full residue scan; wipe-before-free checked on every free of the E1 state space',
-   text='Each of 67 (function, exit) cells (four of them with the caller buffers at odd addresses) - create OK/unsupported/memory, load OK/memory/5 format causes/checksum/unsupported, both decoders x OK/word count/language/checksum/memory/unsupported x 3 languages, multiple languages, encode in composing and plain languages, crypt with ASCII and non-ASCII password, keygen, store, getters, free - is executed on a dedicated 256 KiB stack painted 0xA5; afterwards the complete dead stack and the library writable sections are searched for the secret bytes, the encrypted secret, the mask, the password (raw, NFKD), every phrase word and adjacent word-index pairs (u16/u32/u64). At every free the block must be zero and covered by an earlier injected memzero. Repeated for each compiler build.',
+   text='Each of 79 (function, exit) cells (four of them with the caller buffers at odd addresses; decoders in English, Spanish, Korean and Chinese) - create OK/unsupported/memory, load OK/memory/5 format causes/checksum/unsupported, both decoders x OK/word count/language/checksum/memory/unsupported x 3 languages, multiple languages, encode in composing and plain languages, crypt with ASCII and non-ASCII password, keygen, store, getters, free - is executed on a dedicated 256 KiB stack painted 0xA5; afterwards the complete dead stack and the library writable sections are searched for the secret bytes, the encrypted secret, the mask, the password (raw, NFKD), every phrase word and adjacent word-index pairs (u16/u32/u64). At every free the block must be zero and covered by an earlier injected memzero. Repeated for each compiler build.',
    note='Trusted: ' + TB + ', makecontext. Sees what these compilers leave behind on x86-64.'),
  'C19': dict(engine='E5', design_ref='DESIGN.md section 5 C19', technique='configuration enumeration (both char signednesses) x the exhaustive E1/E2 scripts, transcript comparison',
    text='The phrase sweeps (all ten languages), the prefix/accent variants, the detection strings, the small-scope strings, the word-list sweep, the password masks and the E1 crypt profile are executed against two builds of the library (-fsigned-char, -funsigned-char). Each build must pass the oracles of those scripts, and the per-part transcripts (digest of every status and output, counts, outcome classes, E1 state/transition counts) must be equal; a violation inside one build carries the replayable case.',
